@@ -9,10 +9,12 @@
      zsh    default (unquoted) state through both layers (_describe un-escaping, then the lexer),
             with or without the separating blank, for values not starting with `=` (REFUTED for `=`);
      nushell quoted and bare forms, ~"…" form, with or without blank.
-   REFUTED with witnesses: powershell (`'`), xonsh (raw literal), tcsh (braces), oil (no quoting).
+     powershell '...' with doubled quotes (every value with an active character, a quote or a leading @),
+            bare otherwise, with or without blank (since the repair recorded as C03-powershell-quote).
+   REFUTED with witnesses: xonsh (raw literal), tcsh (braces), oil (no quoting).
    Stretch (correspondence + oracle only): zsh's four quoted states and the ~/named-directory
    branch, xonsh '…' literals, tcsh for values without braces, verbatim formats. *)
-From CV Require Import Base.Str Gen.Tables Model.Common Model.Shells Spec.Readers Proofs.Quoting.
+From CV Require Import Base.Str Gen.Tables Model.Common Model.Shells Spec.Readers Proofs.Quoting Proofs.PowerShell.
 
 Theorem C03_bash_quoted : forall s,
   read_bash (B [34] ++ replace1 bash_escapingQuotedReplacer s ++ B [34]) = Some s.
@@ -54,9 +56,10 @@ Theorem C03_nushell : forall (val : str) (blank : bool),
 Proof. exact nushell_roundtrip. Qed.
 Print Assumptions C03_nushell.
 
-Theorem C03_powershell_refuted : exists v, read_powershell_sp (powershell_quote v) <> Some (v, false).
-Proof. exact powershell_refuted. Qed.
-Print Assumptions C03_powershell_refuted.
+Theorem C03_powershell : forall v (blank : bool), v <> [] ->
+  read_powershell_sp (powershell_quote v ++ (if blank then [c_sp] else [])) = Some (v, blank).
+Proof. exact powershell_roundtrip. Qed.
+Print Assumptions C03_powershell.
 
 Theorem C03_xonsh_refuted : exists v, read_xonsh_sp (xonsh_quote v) = Reads None.
 Proof. exact xonsh_refuted_quote. Qed.
